@@ -316,6 +316,11 @@ _angle_near = st.sampled_from([b + sg * 10.0 ** -k for b in (0.0, 90.0, 180.0, 2
 _anyangle = gens.nice(0.0, 360.0, 2)
 _angle = st.one_of(_anyangle, _anyangle, _anyangle, _anyangle, _anyangle, _anyangle, _anyangle, _anyangle, _anyangle, _anyangle,
                    st.sampled_from([0.0, 90.0, 180.0, 60.0]), st.sampled_from([0.0, 90.0, 180.0, 60.0]), _angle_near)
+# (the slip direction: special and almost-special directions share the quarter the special ones had before, so that generic
+# directions keep their share)
+_sangle = st.one_of(_anyangle, _anyangle, _anyangle,
+                    st.sampled_from([0.0, 90.0, 180.0, 60.0, 0.0, 90.0, 180.0, 60.0, 1e-6, 90.0 - 1e-9, 180.0 + 1e-3, 60.0 + 1e-12, 270.0 - 1e-6,
+                                     45.0 + 1e-9]))
 # ... and a slip of 1e-3 .. 1e-10 nearest-neighbour distances (almost no slip)
 _smag = st.one_of(gens.nice(0.01, 0.4, 4), gens.nice(0.01, 0.4, 4), gens.nice(0.01, 0.4, 4), gens.nice(0.01, 0.4, 4), gens.nice(0.01, 0.4, 4),
                   gens.nice(0.01, 0.4, 4), st.just(0.4), st.just(0.4), st.sampled_from([1e-3, 1e-4, 1e-6, 1e-8, 1e-10]))
@@ -333,7 +338,7 @@ def slips(draw):
     """rigid slip: the half above the plane moves by split*s, the half below by -(1-split)*s; s in the plane at
     'angle' from the first in-plane cell vector, |s| = mag * nearest-neighbour distance"""
     return {'cut': draw(_cut), 'layer': draw(_layer), 'frac': draw(_planefrac),
-            'angle': draw(_angle), 'mag': draw(_smag), 'split': draw(_split),
+            'angle': draw(_sangle), 'mag': draw(_smag), 'split': draw(_split),
             'inpbc': draw(_inpbc), 'cutpbc': draw(_cutpbc), 'boxshift': draw(_boxshift)}
 
 
